@@ -29,7 +29,7 @@ ASSUMPTIONS = [
 ]
 COMPONENTS = {"real": ["Detector.save / load / to_asdf / from_asdf / to_dict / from_dict for CCD, CMOS, MKID, APD", "pyxel.models.load_detector / save_detector inside run_mode", "asdf on a real scratch filesystem"], "stub": ["HDF5 backend: not available"]}
 BUDGET = {"quick": {"n": 400, "wall": 100, "determinism": 4}, "thorough": {"n": 10000, "wall": 1500, "determinism": 12}}
-REQUIRED_REACH = ["type:CCD", "type:CMOS", "type:MKID", "type:APD", "photon3d", "clusters", "scene", "data", "phase", "load_in_pipeline", "roundtrips", "hdf5_not_run", "empty_containers"]
+REQUIRED_REACH = ["type:CCD", "type:CMOS", "type:MKID", "type:APD", "photon3d", "clusters", "scene", "data", "phase", "load_in_pipeline", "load_repeated_in_one_run", "roundtrips", "hdf5_not_run", "empty_containers"]
 
 WRITES = ["photon", "charge", "pixel", "signal", "image", "scene", "data", "clusters"]
 
@@ -63,6 +63,8 @@ def generate(rng, tier):
     # run 2: load at a drawn position, then observers
     scn["load_group"] = rng.choice(ref.CANONICAL_GROUPS[:-1])
     scn["observer_writes"] = rng.choice([[], ["pixel"], ["signal"], []])
+    scn["run2_steps"] = rng.choice([1, 2, 3])
+    scn["run2_nd"] = rng.random() < 0.5
     scn["history"] = rng.choice([["save", "load"], ["save", "load", "save2", "load2"], ["save", "load"]])
     return scn
 
@@ -181,21 +183,28 @@ def execute(scn):
             }
             if og == lg:
                 pipe2 = {lg: pipe2[lg] + [{"name": "obs", "func": world.PROBE, "enabled": True, "arguments": {"tag": "obs", "level": 3, "write": list(scn["observer_writes"])}}]}
-            s2 = {"detector": scn["detector"], "pipeline": pipe2, "readout": {"times": [1.0], "start_time": 0.0, "non_destructive": False}, "mode": {"kind": "exposure"}}
+            times2 = [1.0, 2.0, 4.0][: scn.get("run2_steps", 1)]
+            s2 = {"detector": scn["detector"], "pipeline": pipe2, "readout": {"times": times2, "start_time": 0.0, "non_destructive": bool(scn.get("run2_nd"))}, "mode": {"kind": "exposure"}}
+            if len(times2) > 1:
+                stats["load_repeated_in_one_run"] = 1
             rec2 = expo.run_exposure(s2)
             if rec2["exc"] is not None:
                 bad("C18.load-model", f"C18.load-model-raises:{type(rec2['exc']).__name__}@{feat}", {"exc": repr(rec2["exc"])[:300], "tb": rec2.get("tb", "")[-500:]})
             else:
-                ev = next(e for e in rec2["hist"] if e["name"] == "obs")
                 file_state = probes.snap(det)  # what run 1 left behind = what the file holds
-                seen = ev["before"]
-                for b in ("photon", "charge", "pixel", "signal", "image"):
-                    fa, sa = file_state.get(b), seen.get(b)
-                    same = (fa is None and sa is None) or (fa is not None and sa is not None and fa.shape == sa.shape and np.array_equal(fa, sa))
-                    if not same:
-                        bad("C18.load-model", f"C18.load-model-state-not-seen@{b}", {"bucket": b, "file_holds": None if fa is None else fa.ravel()[:3].tolist(), "later_model_sees": None if sa is None else sa.ravel()[:3].tolist(), "load_group": lg})
+                mismatch = False
+                for ev in [e for e in rec2["hist"] if e["name"] == "obs"]:
+                    seen = ev["before"]  # the load model ran just before, in every step
+                    for b in ("photon", "charge", "pixel", "signal", "image"):
+                        fa, sa = file_state.get(b), seen.get(b)
+                        same = (fa is None and sa is None) or (fa is not None and sa is not None and fa.shape == sa.shape and np.array_equal(fa, sa))
+                        if not same:
+                            bad("C18.load-model", f"C18.load-model-state-not-seen@{b}" + ("+later-step" if ev["step"] > 0 else ""), {"bucket": b, "step": ev["step"], "file_holds": None if fa is None else fa.ravel()[:3].tolist(), "later_model_sees": None if sa is None else sa.ravel()[:3].tolist(), "load_group": lg})
+                            mismatch = True
+                            break
+                    if mismatch:
                         break
-                else:
+                if not mismatch:
                     tree = rec2["tree"]
                     ds = tree["/bucket"].to_dataset()
                     for b in ("photon", "charge", "pixel", "signal", "image"):
@@ -208,6 +217,8 @@ def execute(scn):
                             bad("C18.load-model", f"C18.load-model-result-missing@{b}", {"bucket": b})
                             break
                         got = np.asarray(ds[b].isel(time=0).values)
+                        if len(times2) > 1:
+                            continue  # later steps are covered by the observer's view above
                         if got.shape != fa.shape or not np.array_equal(got.astype(float), fa.astype(float)):
                             bad("C18.load-model", f"C18.load-model-result@{b}", {"bucket": b})
                             break
